@@ -122,3 +122,7 @@ fn gr_binding_preserved() {
     kani::cover!(pre.is_none() && first.is_none(), "this task creates the keyspace");
     kani::cover!(pre.is_some(), "already bound");
 }
+
+// native replay of Kani counterexamples (tools/replay.py writes the file)
+#[cfg(verif_replay)]
+include!("/verif/build/group/replay_tests.rs");
